@@ -39,12 +39,15 @@ class BytesIO:
                 neg = n < 0
                 if bool(neg):
                     end = L
+                elif bool(self.pos + n > L):      # short read at end of stream (a fork, not an ite)
+                    end = L
                 else:
-                    end = core.ite(self.pos + n > L, L, self.pos + n)
+                    end = self.pos + n
             else:
                 raise TypeError('integer argument expected')
         out = rope.slice_rope(self.buf, self.pos, end)
-        self.pos = core.ite(end > self.pos, end, self.pos)
+        if bool(end > self.pos):
+            self.pos = end
         return out
 
     def write(self, data):
